@@ -1136,7 +1136,142 @@ func checkRound5Small(c *Ctx, id string) {
 		} else {
 			r.Unk("C20.reading-before-read", "(*core.Keys).ReadKey", "-", "anchor not found")
 		}
+	case "C02":
+		// the binds are compared with the keys read in one notation
+		r.Rule("C02.bind-sequences-converted", "K3", "(*keymap.Engine).matchBind compares the keys read with strutil.ConvertMeta(bound sequence) on every path — whatever convert-meta says: the Meta binds are stored as Latin-1 runes (M-c = U+00E3), and compared as they are with the UTF-8 bytes read a typed `ã` would run the Meta command instead of being inserted", 2)
+		if MB := p.Func("(*keymap.Engine).matchBind"); MB != nil {
+			r.Fn(fnName(MB))
+			n := 0
+			check := func(in ssa.Instruction, v ssa.Value, what string) {
+				// the operand that is not the parameter `keys` (converted)
+				if stripConv(v) == ssa.Value(MB.Params[1]) {
+					return
+				}
+				if _, isK := v.(*ssa.Const); isK {
+					return
+				}
+				n++
+				leaves := backSlice(v, &SliceOpts{P: p, IsSource: func(x ssa.Value) bool { return isCallNamed(x, "strutil.ConvertMeta") }})
+				ok := len(leaves) > 0
+				why := ""
+				for _, l := range leaves {
+					if l.Kind != LeafSource {
+						ok = false
+						why = p.descValue(l.V) + " [" + l.Why + "]"
+					}
+				}
+				r.Check(ok, "C02.bind-sequences-converted", fmt.Sprintf("%s:%s#%d", fnName(MB), what, n-1), p.IPos(in), "compared sequence = ConvertMeta(bound sequence)", "the bound sequence is compared with the keys read without strutil.ConvertMeta on some path: "+why)
+			}
+			eachInstr(MB, func(in ssa.Instruction) {
+				if cl, ok := in.(*ssa.Call); ok && calleeName(cl) == "strings.HasPrefix" {
+					check(in, cl.Call.Args[0], "HasPrefix")
+				}
+				if bo, ok := in.(*ssa.BinOp); ok && bo.Op == token.EQL {
+					if bt, isB := bo.X.Type().Underlying().(*types.Basic); isB && bt.Info()&types.IsString != 0 {
+						check(in, bo.X, "==")
+						check(in, bo.Y, "==")
+					}
+				}
+			})
+			if n == 0 {
+				r.Unk("C02.bind-sequences-converted", fnName(MB), p.Pos(MB.Pos()), "no comparison of a bound sequence found: anchors changed")
+			}
+		} else {
+			r.Unk("C02.bind-sequences-converted", "(*keymap.Engine).matchBind", "-", "anchor not found")
+		}
 	case "C14":
+		// ClearMenu leaves the menu keymap whatever it is asked to drop
+		r.Rule("C14.clear-menu-leaves-keymap", "K1", "(*completion.Engine).ClearMenu leaves the menu-select keymap on every path on which that keymap is the local one, whether or not it is asked to drop the completions: a list kept on screen with no candidate selected must not keep the menu keymap, or the next typed key is looked up there", 1)
+		if CM := p.Func("(*completion.Engine).ClearMenu"); CM != nil {
+			r.Fn(fnName(CM))
+			w := reachUnder(CM, func(c ssa.Value) (bool, bool) {
+				rel, ok := relOf(c, true)
+				if !ok {
+					return false, false
+				}
+				for _, pr := range [][2]ssa.Value{{rel.X, rel.Y}, {rel.Y, rel.X}} {
+					cl, isCall := pr[0].(*ssa.Call)
+					if !isCall || calleeName(cl) != "(*keymap.Engine).Local" {
+						continue
+					}
+					if k, isK := constString(pr[1]); isK && k == "menu-select" {
+						switch rel.Op {
+						case token.EQL:
+							return true, true
+						case token.NEQ:
+							return false, true
+						}
+					}
+				}
+				return false, false
+			}, func(x ssa.Instruction) bool { return isReturn(x) && x.Block() != CM.Recover }, func(x ssa.Instruction) bool {
+				if !isCallTo(x, "(*keymap.Engine).SetLocal") {
+					return false
+				}
+				k, isK := constString(x.(ssa.CallInstruction).Common().Args[1])
+				return isK && k == ""
+			})
+			pos := p.Pos(CM.Pos())
+			if w != nil {
+				pos = p.IPos(w)
+			}
+			r.Check(w == nil, "C14.clear-menu-leaves-keymap", "(*completion.Engine).ClearMenu:SetLocal", pos, "SetLocal(\"\") on every path with the menu keymap active", "with the menu-select keymap active ClearMenu can return without leaving it (the exit depends on something else, e.g. on whether the completions are dropped)")
+		} else {
+			r.Unk("C14.clear-menu-leaves-keymap", "(*completion.Engine).ClearMenu", "-", "anchor not found")
+		}
+		// between the two keymap dispatches the menu keymap is left, selected candidate or not
+		r.Rule("C14.update-leaves-menu", "K1", "completion.UpdateInserted — run between the local and the main keymap dispatch — calls (defers) ClearMenu on every path when autocomplete is off, whether or not a candidate is selected: a list displayed with no selection must not keep the menu-select keymap once the line is edited", 1)
+		if UI := p.Func("completion.UpdateInserted"); UI != nil {
+			r.Fn(fnName(UI))
+			w := reachUnder(UI, func(c ssa.Value) (bool, bool) {
+				if isFieldLoad(c, "completion.Engine", "auto") {
+					return false, true
+				}
+				return false, false
+			}, func(x ssa.Instruction) bool { return isReturn(x) && x.Block() != UI.Recover }, func(x ssa.Instruction) bool {
+				return isCallTo(x, "(*completion.Engine).ClearMenu")
+			})
+			pos := p.Pos(UI.Pos())
+			if w != nil {
+				pos = p.IPos(w)
+			}
+			r.Check(w == nil, "C14.update-leaves-menu", "completion.UpdateInserted:ClearMenu", pos, "ClearMenu on every path with autocomplete off", "with autocomplete off UpdateInserted can return without ClearMenu (the call depends on something else, e.g. on a candidate being selected): the menu keymap survives an edit of the line and the next Tab inserts from the stale list with the stale prefix")
+		} else {
+			r.Unk("C14.update-leaves-menu", "completion.UpdateInserted", "-", "anchor not found")
+		}
+		// who may make the inserted candidate part of the real line
+		r.Rule("C14.accept-only-reviewed", "K2", "Engine.Cancel with a constant inserted == false — the call that makes the virtually inserted candidate part of the real line — is made only by the reviewed acceptors (insert-completions, accept-and-menu-complete, Engine.Reset); the menu movements (Select, SelectTag, …) drop the candidate with cancelCompletedLine instead, or the next one is inserted next to an accepted one the user never chose", 3)
+		{
+			acceptors := map[string]bool{"(*readline.Shell).insertCompletions": true, "(*readline.Shell).acceptAndMenuComplete": true, "(*completion.Engine).Reset": true}
+			CA := p.Func("(*completion.Engine).Cancel")
+			if CA == nil {
+				r.Unk("C14.accept-only-reviewed", "(*completion.Engine).Cancel", "-", "anchor not found")
+			} else {
+				for _, e := range p.callersOf(CA) {
+					if e.Site == nil {
+						continue
+					}
+					args := e.Site.Common().Args
+					if len(args) < 2 {
+						continue
+					}
+					k, isK := constBool(args[1])
+					if !isK || k {
+						continue
+					}
+					cf := e.Caller.Func
+					for cf.Parent() != nil {
+						cf = cf.Parent()
+					}
+					okA := acceptors[fnName(cf)]
+					if !okA {
+						okA, _ = p.onlyReachedThrough(cf, acceptors)
+					}
+					r.CallSites++
+					r.Check(okA, "C14.accept-only-reviewed", fmt.Sprintf("%s:Cancel(false)%s", fnName(cf), ordinalOf(cf, e.Site, "(*completion.Engine).Cancel")), p.Pos(e.Pos()), "reviewed acceptor", fnName(cf)+" accepts the inserted candidate into the real line (Cancel(false, …)) and is not one of the reviewed acceptors: a menu movement that does so leaves a candidate the user did not choose in the line")
+				}
+			}
+		}
 		r.Rule("C14.prefix-before-cursor", "K3", "(*completion.Engine).setPrefix looks for the word to complete from the character before the cursor, Pos()-1, as it is: the position handed to SelectBlankWord is not a clamped one (a phi with the constant 0) — at the beginning of the line there is no character before the cursor and no prefix, and taking character 0 instead makes the candidate replace the first character of the text after the cursor", 1)
 		if SP := p.Func("(*completion.Engine).setPrefix"); SP != nil {
 			r.Fn(fnName(SP))
@@ -1389,7 +1524,10 @@ func checkRound5Small(c *Ctx, id string) {
 					if !isOne || one != 1 {
 						return
 					}
-					if !dependsOn(bo.X, func(v ssa.Value) bool { ex, ok := v.(*ssa.Extract); return ok && ex.Tuple == ssa.Value(call) && ex.Index == 1 }) {
+					if !dependsOn(bo.X, func(v ssa.Value) bool {
+						ex, ok := v.(*ssa.Extract)
+						return ok && ex.Tuple == ssa.Value(call) && ex.Index == 1
+					}) {
 						return
 					}
 					partial := false
